@@ -174,6 +174,34 @@ def run(ctx):
     else:
         chk.bad(R1, DELETE, norm(lp.iter), f'the chunk loop does not feed every chunk of `{param}` to both the SELECT and the DELETE (iter ok={it_ok}, size={sv}, select={len(sel)}, delete={len(dele)})',
                 where=f'{fn.module.relpath}:{lp.lineno}')
+    # no early exit: every path through the loop body runs the DELETE, and nothing leaves the loop before the iterator is exhausted
+    from .c01 import body_paths
+    exits = [x for x in ast.walk(lp) if isinstance(x, (ast.Break, ast.Return)) or (isinstance(x, ast.Continue))]
+    own_exits = []
+    for x in exits:
+        # a break/continue inside a nested loop belongs to that loop
+        par = getattr(x, '_parent', None)
+        inner = False
+        while par is not None and par is not lp:
+            if isinstance(par, (ast.For, ast.While)) and not isinstance(x, ast.Return):
+                inner = True
+            par = getattr(par, '_parent', None)
+        if not inner:
+            own_exits.append(x)
+    all_delete = True
+    for path in body_paths(lp.body):
+        if not any(isinstance(st_, ast.AST) and any(c is d for d in dele for c in ast.walk(st_)) or
+                   (isinstance(st_, ast.AST) and any(isinstance(c, ast.Call) and isinstance(c.func, ast.Attribute) and c.func.attr == 'execute' for c in ast.walk(st_)) and
+                    any(isinstance(n2, ast.Name) and isinstance(last_assignment(n2.id, fn, getattr(st_, 'lineno', 0)), ast.Call) and 'delete' in norm(last_assignment(n2.id, fn, getattr(st_, 'lineno', 0)))
+                        for c in ast.walk(st_) if isinstance(c, ast.Call) for n2 in c.args if isinstance(n2, ast.Name)))
+                   for st_ in path):
+            all_delete = False
+    if not own_exits and all_delete:
+        chk.ok(R1, DELETE, 'chunk loop exits', detail='no break/return/continue: the loop runs the DELETE for every chunk of the request')
+    else:
+        x = own_exits[0] if own_exits else lp
+        chk.bad(R1, DELETE, f'{type(x).__name__.lower()} in the chunk loop', 'the chunk loop can be left (or an iteration cut short) before every chunk of the request reached the DELETE: '
+                'requested keys in the remaining chunks keep their index rows although they are reported/assumed deleted', where=f'{fn.module.relpath}:{x.lineno}')
     dl = [e for n in g.nodes if n.id in reach for e in E.of(n) if e[0] == 'DB_DELETE']
     if len(dl) == 1 and dl[0][2].get('where') and all('in_(' in w for w in dl[0][2]['where']):
         chk.ok(R1, DELETE, f"DELETE WHERE {dl[0][2]['where']}", detail='rows are deleted only by membership in the requested chunk')
@@ -272,6 +300,15 @@ def run(ctx):
         chk.ok(R4, REPACK, norm(early.test), detail='a pack without index rows is unlinked')
     else:
         chk.bad(R4, REPACK, 'empty-pack branch', 'a pack file without live objects is no longer removed by repack', where=f'{rp.module.relpath}:{rp.lineno}')
+    # ... and only such packs: the file under the pack's own name is removed only after an existence test over its rows said
+    # "none" or after the commit that re-pointed them (state machine shared with C05.R4; only this clause is claimed here)
+    from .machines import explore, report_violations
+    from .repack import RepackMachine
+    found, m = explore(ctx, chk, REPACK, {}, lambda g, c: RepackMachine(ctx, g, require_durable=False, rule='C11.R4'), write_policy(depth=5), 'wp5')
+    found = [(v, c) for v, c in found if 'removed' in v.msg]
+    report_violations(chk, REPACK, found)
+    if not found:
+        chk.ok(R4, REPACK, 'unlink of pack files', detail='a pack file is removed only when no committed row references it (existence query) or after its rows were re-pointed and committed')
     ra = prog.fn('container:Container.repack')
     lps = [n for n in walk_local(ra.node) if isinstance(n, ast.For)]
     if lps and norm(lps[0].iter) == 'self._list_packs()' and any(isinstance(c, ast.Call) and norm(c.func) == 'self.repack_pack' and c.args and norm(c.args[0]) == norm(lps[0].target) for c in ast.walk(lps[0])):
